@@ -18,6 +18,8 @@ Definition ev_eqb (x y : ev) : bool :=
   | VRet l k, VRet l' k' => (l =? l') && Bool.eqb k k'
   | VEnd p, VEnd p' => p =? p'
   | VEnq c n a, VEnq c' n' a' | VDeq c n a, VDeq c' n' a' => (c =? c') && (n =? n') && zlist_eqb a a'
+  | VDrop c i, VDrop c' i' =>
+      (c =? c') && list_eqb (pair_eqb Z.eqb (pair_eqb Z.eqb zlist_eqb)) i i'
   | VGPub n a k q, VGPub n' a' k' q' => (n =? n') && zlist_eqb a a' && (k =? k') && zlist_eqb q q'
   | _, _ => false
   end.
